@@ -220,6 +220,19 @@ func init() {
 	})
 }
 
+func init() {
+	props = append(props, prop{
+		ID: "C07", Title: "a message of death is contained", Level: "fault_enumeration",
+		LevelText:  "Generated histories with the test-only PANIC command injected at generated positions from generated roles (unregistered and services sessions never reach the handler, registered clients and operators do); the log is written to a real raft log store, a child process applies it through FSM.Apply and is expected to die in glog.Fatalf; the parent inspects the durable log (exactly that entry re-typed as message of death, everything else intact), restarts children until one survives (optionally snapshotting and restoring on the way), and compares the survivor's full state and per-entry outputs with an in-process reference that skips the marked entries but records their client message ids.",
+		LevelNote:  "The crash is the real one (process exit inside the deferred recover); up to two crashing entries per history; the children replay the log from the durable store as raft does on start.",
+		Technique:  "property-based fault injection (rapid): generated crash positions/roles, child processes, differential comparison with a reference replay",
+		DesignRef:  "4/C07",
+		Rule:       "case = history of 6-40 entries with 1-2 injected PANIC lines (+ optional snapshot/restore points on the restarted node); non-trivial = a PANIC reached the handler AND a later entry of the same session follows it; distinct = hash of the case",
+		Assumptions: []string{"the PANIC command is only registered in the child processes (environment variable at process start)"},
+		Units:      []unit{{Name: "children", Pkg: ".", Harness: "main", Run: "^TestVerifC07$", Rapid: true, Quick: 960, Thorough: 16000, QuickTimeoutS: 600, ThoroughTimeoutS: 3000}},
+	})
+}
+
 // notApplicable lists properties that are not claimed (yet), with the reason.
 var notApplicable = map[string]string{}
 
